@@ -541,10 +541,47 @@ func (a *NilAnalysis) killLoc(loc string, f nilFacts) {
 	}
 }
 
+// capturedByClosure: some closure capturing the variable may assign it (a closure that only reads
+// the captured variable cannot invalidate what is known about it).
 func capturedByClosure(al *ssa.Alloc) bool {
 	for _, ref := range *al.Referrers() {
-		if _, ok := ref.(*ssa.MakeClosure); ok {
-			return true
+		mc, ok := ref.(*ssa.MakeClosure)
+		if !ok {
+			continue
+		}
+		fn := mc.Fn.(*ssa.Function)
+		for k, b := range mc.Bindings {
+			if b != ssa.Value(al) || k >= len(fn.FreeVars) {
+				continue
+			}
+			if freeVarWritten(fn, fn.FreeVars[k], 0) {
+				return true
+			}
+		}
+	}
+	return false
+}
+
+func freeVarWritten(fn *ssa.Function, fv *ssa.FreeVar, depth int) bool {
+	if depth > 3 {
+		return true
+	}
+	for _, ref := range *fv.Referrers() {
+		switch r := ref.(type) {
+		case *ssa.Store:
+			if r.Addr == ssa.Value(fv) {
+				return true
+			}
+		case *ssa.MakeClosure:
+			inner := r.Fn.(*ssa.Function)
+			for k, b := range r.Bindings {
+				if b == ssa.Value(fv) && k < len(inner.FreeVars) && freeVarWritten(inner, inner.FreeVars[k], depth+1) {
+					return true
+				}
+			}
+		case *ssa.UnOp, *ssa.DebugRef:
+		default:
+			return true // address escapes some other way
 		}
 	}
 	return false
